@@ -78,6 +78,25 @@ def oracle(case, res, extra):
             return
         if st2 != "ok":
             continue
+        if cp is perms[0]:
+            # the model (about which the order-irrelevance lemmas are stated) on the PERMUTED document vs the implementation on it
+            from .. import model
+            from ..real import schema
+            try:
+                sx = G.routine_sexp(schema(q2).program, case.tree_of)
+            except Exception:
+                sx = None
+            if sx is not None:
+                mr = model.run_driver(["compile 0 " + sx])[0]
+                res.stats["model_vs_impl_compared"] += 1
+                res.stats["model_on_permuted_document"] += 1
+                if mr[0] != "ok":
+                    res.disagreement("compile_routine vs compileRoutine on a permuted document (outcome)", {"qref": q, "permuted_qref": q2}, str(mr)[:200], "ok")
+                else:
+                    dm = pipeline.compare_trees(r2.routine, model.decode_croutine(mr[1]), random.Random(case.seed * 7 + 2))
+                    if dm:
+                        res.disagreement("compile_routine vs compileRoutine on a permuted document (tree)", {"qref": q, "permuted_qref": q2},
+                                         [d[3] for d in dm[:3]], [(list(d[0]), d[1], d[2]) for d in dm[:3]])
         diffs = compare.trees_equal_real(case.result.routine, r2.routine, rng, None, constraints=True)
         if diffs:
             res.violation("failing-input", f"reordering the lists of the document changes the compiled result: {diffs[0][:2]}",
@@ -99,7 +118,7 @@ def run(ctx, widen=False):
     ctx.rule = ("routine trees from harness.routinegen x permutations of every list-valued field at every level (3 random child orders of the root in quick; "
                 "ALL child orders of the root for <=4 children in thorough); non-trivial = some listed child order contradicts the data flow; distinct seeds")
     base = ctx.seed * 1000003 + 7500000
-    pipeline.run_stream(ctx, __name__, range(base, base + n), extra={"exhaustive_children": ctx.thorough(), "max_children": 4}, use_model=False)
+    pipeline.run_stream(ctx, __name__, range(base, base + n), extra={"exhaustive_children": ctx.thorough(), "max_children": 4}, use_model=True)
 
 
 def replay(payload):
